@@ -1,4 +1,4 @@
-use std::collections::HashMap;
+use std::collections::{HashMap, HashSet};
 use shared::rule::Rule;
 use shared::terms::{Term, TriplePattern};
 use shared::triple::Triple;
@@ -92,13 +92,32 @@ fn substitute_term(term: &Term, bindings: &HashMap<String, Term>) -> Term {
     }
 }
 
-fn rename_rule_variables(rule: &Rule, counter: &mut usize) -> Rule {
+/// Collects the names of all variables occurring in `term`.
+fn collect_variable_names(term: &Term, names: &mut HashSet<String>) {
+    match term {
+        Term::Variable(v) => {
+            names.insert(v.clone());
+        }
+        Term::Constant(_) => {}
+        Term::QuotedTriple(qt) => {
+            collect_variable_names(&qt.0, names);
+            collect_variable_names(&qt.1, names);
+            collect_variable_names(&qt.2, names);
+        }
+    }
+}
+
+/// Renames the variables of `rule` apart. Generated names (`v<counter>`) that coincide with
+/// a name in `reserved` (the variables of the user's query) are skipped, otherwise a query
+/// variable called e.g. `v1` would be captured by a renamed rule variable.
+fn rename_rule_variables(rule: &Rule, counter: &mut usize, reserved: &HashSet<String>) -> Rule {
     let mut var_map = HashMap::new();
 
     fn rename_term(
         term: &Term,
         var_map: &mut HashMap<String, String>,
         counter: &mut usize,
+        reserved: &HashSet<String>,
     ) -> Term {
         match term {
             Term::Variable(v) => {
@@ -106,34 +125,38 @@ fn rename_rule_variables(rule: &Rule, counter: &mut usize) -> Rule {
                 if let Some(new_v) = var_map.get(v) {
                     Term::Variable(new_v.clone())
                 } else {
-                    let new_v = format!("v{}", *counter);
+                    let mut new_v = format!("v{}", *counter);
                     *counter += 1;
+                    while reserved.contains(&new_v) {
+                        new_v = format!("v{}", *counter);
+                        *counter += 1;
+                    }
                     var_map.insert(v.clone(), new_v.clone());
                     Term::Variable(new_v)
                 }
             }
             Term::Constant(c) => Term::Constant(*c),
             Term::QuotedTriple(qt) => Term::QuotedTriple(Box::new((
-                rename_term(&qt.0, var_map, counter),
-                rename_term(&qt.1, var_map, counter),
-                rename_term(&qt.2, var_map, counter),
+                rename_term(&qt.0, var_map, counter, reserved),
+                rename_term(&qt.1, var_map, counter, reserved),
+                rename_term(&qt.2, var_map, counter, reserved),
             ))),
         }
     }
 
     let mut new_premise = Vec::new();
     for p in &rule.premise {
-        let s = rename_term(&p.0, &mut var_map, counter);
-        let p_term = rename_term(&p.1, &mut var_map, counter);
-        let o = rename_term(&p.2, &mut var_map, counter);
+        let s = rename_term(&p.0, &mut var_map, counter, reserved);
+        let p_term = rename_term(&p.1, &mut var_map, counter, reserved);
+        let o = rename_term(&p.2, &mut var_map, counter, reserved);
         new_premise.push((s, p_term, o));
     }
 
     let mut new_conclusions = Vec::new();
     for conclusion in &rule.conclusion {
-        let conclusion_s = rename_term(&conclusion.0, &mut var_map, counter);
-        let conclusion_p = rename_term(&conclusion.1, &mut var_map, counter);
-        let conclusion_o = rename_term(&conclusion.2, &mut var_map, counter);
+        let conclusion_s = rename_term(&conclusion.0, &mut var_map, counter, reserved);
+        let conclusion_p = rename_term(&conclusion.1, &mut var_map, counter, reserved);
+        let conclusion_o = rename_term(&conclusion.2, &mut var_map, counter, reserved);
         new_conclusions.push((conclusion_s, conclusion_p, conclusion_o));
     }
 
@@ -150,7 +173,12 @@ impl Reasoner {
     pub fn backward_chaining(&self, query: &TriplePattern) -> Vec<HashMap<String, Term>> {
         let bindings = HashMap::new();
         let mut variable_counter = 0;
-        self.backward_chaining_helper(query, &bindings, 0, &mut variable_counter)
+        // Names of the query's own variables: never handed out when renaming rule variables.
+        let mut reserved = HashSet::new();
+        collect_variable_names(&query.0, &mut reserved);
+        collect_variable_names(&query.1, &mut reserved);
+        collect_variable_names(&query.2, &mut reserved);
+        self.backward_chaining_helper(query, &bindings, 0, &mut variable_counter, &reserved)
     }
 
 
@@ -162,6 +190,7 @@ impl Reasoner {
         bindings: &HashMap<String, Term>,
         depth: usize,
         variable_counter: &mut usize,
+        reserved: &HashSet<String>,
     ) -> Vec<HashMap<String, Term>> {
         const MAX_DEPTH: usize = 10;
         if depth > MAX_DEPTH {
@@ -181,7 +210,7 @@ impl Reasoner {
 
         // Match with rules
         for rule in &self.rules {
-            let renamed_rule = rename_rule_variables(rule, variable_counter);
+            let renamed_rule = rename_rule_variables(rule, variable_counter, reserved);
 
             // Try to unify with each conclusion in the rule
             for conclusion in &renamed_rule.conclusion {
@@ -191,7 +220,7 @@ impl Reasoner {
                         let mut new_premise_results = Vec::new();
                         for b in &premise_results {
                             let sub_res =
-                                self.backward_chaining_helper(prem, b, depth + 1, variable_counter);
+                                self.backward_chaining_helper(prem, b, depth + 1, variable_counter, reserved);
                             new_premise_results.extend(sub_res);
                         }
                         premise_results = new_premise_results;
